@@ -341,7 +341,7 @@ def harnesses(tier, seed):
                           assumptions=["semi-symbolic: concrete model data, symbolic geometry", "real arithmetic (QF_NRA)"],
                           expect=['n2:step-inside-box'], nproc=None, wall_budget=(150 if tier == 'quick' else 1500), expect_exhaustive=False,
                           max_paths=(400 if tier == 'quick' else 5000)))
-    for mname in (['cg-restart-after-late-bound', 'two-rotations-far-bound', 'return-to-lower-bound'] if tier == 'quick' else list(ONESYM.keys())):      # (the alt-* members: 5 min each and mostly 'unknown' without the portfolio - measured)
+    for mname in (['cg-restart-after-late-bound', 'return-to-lower-bound'] if tier == 'quick' else list(ONESYM.keys())):      # (the alt-* and two-rotations members: 5-9 min each and partly 'unknown' - measured; thorough only)
         hs.append(Harness("trsbox[n=%d,one-symbolic-bound,%s]" % (len(ONESYM[mname][0]), mname), 'dfverif.checks.c12', 'body_onesym', params=dict(member=mname), cfg=nra(), functions=FUNCS,
                           bounds="n=%d; g, H, Delta, xopt and all bounds but one concrete, ONE bound symbolic in a range around the value where it limits the step" % len(ONESYM[mname][0]),
                           assumptions=["semi-symbolic with one symbol", "real arithmetic (QF_NRA); gnew compared to 1e-9 absolute"],
